@@ -13,6 +13,18 @@ CHECKS = {
         note="trusts pandas for executing partition tasks, the own executor (dask.core semantics), and the comparator's order/index freedom derived from static flags",
         ref="§3 C01",
     ),
+    "C12": dict(
+        technique="bounded-exhaustive property-based enumeration of shuffle routes with invariant oracles (permutation, co-location, cross-frame consistency)",
+        text="Every (n_in, n_out, max_branch) route up to the bound x method x key kind is executed and checked against invariants over the per-partition outputs; the int-vs-float consistency is observed directly on the two shuffles a hash join plans. Exhaustive inside the stated box only.",
+        note="p2p unreachable; partition contents compared as multisets; box bounds in evidence",
+        ref="§3 C12",
+    ),
+    "C13": dict(
+        technique="bounded-exhaustive property-based enumeration of (old divisions, new divisions) pairs and (n_in,n_out) grids with a row-order/range oracle",
+        text="All division-vector pairs over a small ordered domain (incl. repeated last value, single-value ranges, forced extension), 3 data fillings, 4 index kinds, plus count/size/freq requests and invalid requests that must raise. Exhaustive inside the stated box only.",
+        note="input layouts built with from_map(divisions=...) independent of the code under test; one known finding (D19) listed in known_findings.json",
+        ref="§3 C13",
+    ),
 }
 
 NOT_APPLICABLE = {}
